@@ -22,6 +22,11 @@ func (group *Group) startHlsIfNeeded() {
 		return
 	}
 
+	if !hls.StreamNameIsSafePathElement(group.streamName) {
+		Log.Errorf("[%s] hls not started since stream name can not be used as directory name. streamName=%s", group.UniqueKey, group.streamName)
+		return
+	}
+
 	group.hlsMuxer = hls.NewMuxer(group.streamName, &group.config.HlsConfig.MuxerConfig, group)
 	group.hlsMuxer.Start()
 }
